@@ -20,6 +20,9 @@ TNext == /\ l <= Len(Tr)
                  /\ (e.raised = 1 => e.exc \in {"TimeoutError", "EzspError"})
                  /\ (e.a = "feed" /\ e.lost >= 0 => (e.lost = 1) = raised')       \* loop mode: zigpy told iff raised
               \/ e.a = "restart" /\ Restart
+              \* frames the NCP sends on its own (incoming messages, stack status, delivery confirmations) between two feeds are no keep-alive
+              \* outcome: the run of failures is neither cleared nor lengthened by them
+              \/ e.a = "callback" /\ e.raised = 0 /\ UNCHANGED vars
          /\ l' = l + 1 /\ UNCHANGED tid
 TSpec == TInit /\ [][TNext]_tvars
 Progress == TLCSet(1, [TLCGet(1) EXCEPT ![tid] = IF @ < l THEN l ELSE @])
